@@ -5,7 +5,7 @@ SYMBOLIC_CRYPTO = "symbolic (Dolev-Yao) AEAD/hash: seal/H are free constructors 
 PROPS = {
     "C01": {
         "lean": "CedarProps.C01",
-        "engines": ["framing"],
+        "engines": ["framing", "codec"],
         "oracle_engine": {"framing": "stream", "codec": "codec"},
         "trusted": [SYMBOLIC_CRYPTO],
         "technique": "Lean 4 theorems (round-trip by induction over accepted frame chains; send-accepts-implies-receive-accepts by case analysis) + correspondence on real streams over boundary sizes and all short compositions",
@@ -22,6 +22,16 @@ PROPS = {
         "level_text": "wire_format, first_aad_digests, nonce_sequence / nonces_distinct (any interleaving of sends, buffered writes, secrets, crypto toggles and receives; imported counters), refuses_wrap, iv_once: kernel-checked over the model. ref_accepts_impl / impl_accepts_ref are discharged by the gcmformat engine: every frame real streams emit is opened by refcodec, refcodec-built frames are fed to the real receiver, counters near 2^32 via NewStreamWithCryptoState.",
         "level_note": "Distinct RNG draws are distinct (crypto/rand); symbolic AEAD in the model, real AES-256-GCM in the correspondence.",
         "assumptions": ["crypto/rand yields fresh IVs"],
+    },
+    "C14": {
+        "lean": "CedarProps.C14",
+        "engines": ["codec"],
+        "oracle_engine": {"codec": "codec"},
+        "trusted": ["Lean native Float (oracle only, for PutDouble/GetDouble correspondence; no theorem depends on it)"],
+        "technique": "Lean 4 theorems (encoder layout = reference encoding; decoder as refinement of the pending byte sequence, hence independent of every frame cut; int/string round trips) + correspondence on real Message/Stream with re-cutting at every position",
+        "level_text": "layout, int_roundtrip, cut_independence (every sequence of well-formed values, both string modes, every cut of the bytes into frames incl. mid-value and empty frames), same_bytes_same_values, double_precision_partial (integer inequality for the 31-bit fraction; float rounding not modelled), int_char_frames_fit: kernel-checked. Tied to the code by the codec engine (real encoder output vs independent spec encoder, decode as sent and after re-cut at every position / random positions, doubles from random bit patterns, subnormals, exponent extremes, both modes).",
+        "level_note": "IEEE float multiply/divide, math.Frexp/Ldexp are Go's: represented by an integer inequality (partial) and compared on real values; strings: NUL-free, not starting with the BinNullChar byte (valid UTF-8 never does).",
+        "assumptions": ["Go's math.Frexp/Ldexp and float64 arithmetic follow IEEE-754"],
     },
     "C15": {
         "lean": "CedarProps.C15",
